@@ -670,9 +670,13 @@ func c33SliceNum(n int) string {
 type c33OVar struct {
 	kind int // 0 unset, 1 scalar, 2 array
 	m    map[int]string
+	// isSet mirrors the interpreter's Variable.Set flag.  It is NOT part of the oracle (bash has no
+	// such thing); only the generator reads it, to apply the exclusion of finding
+	// C33-unset-after-elem-assign exactly.
+	isSet bool
 }
 
-func (v c33OVar) clone() c33OVar { return c33OVar{v.kind, maps33Clone(v.m)} }
+func (v c33OVar) clone() c33OVar { return c33OVar{v.kind, maps33Clone(v.m), v.isSet} }
 
 func (v c33OVar) max() int { return c33MapMax(v.m) }
 
@@ -708,15 +712,18 @@ func (v *c33OVar) apply(cm c33Cmd, other c33OVar) bool {
 	case "as", "lo":
 		v.m = map[int]string{}
 		v.kind = 2
+		v.isSet = true
 		v.lit(cm.es, 0)
 	case "ap":
 		v.kind = 2
+		v.isSet = true
 		v.lit(cm.es, v.max()+1)
 	case "cp", "ca":
 		if cm.kind == "cp" {
 			v.m = map[int]string{}
 		}
 		v.kind = 2
+		v.isSet = true
 		idx := v.max() + 1
 		for _, k := range c33Keys(other.m) {
 			v.m[idx] = other.m[k]
@@ -725,6 +732,7 @@ func (v *c33OVar) apply(cm c33Cmd, other c33OVar) bool {
 	case "ln":
 		v.m = map[int]string{}
 		v.kind = 0
+		v.isSet = false
 	case "se":
 		j := resolve(cm.i)
 		if j < 0 {
@@ -744,9 +752,11 @@ func (v *c33OVar) apply(cm c33Cmd, other c33OVar) bool {
 		if v.kind != 2 {
 			v.m = map[int]string{0: cm.v}
 			v.kind = 1
+			v.isSet = true
 		}
 	case "sa":
 		v.m[0] += cm.v
+		v.isSet = true
 		if v.kind == 0 {
 			v.kind = 1
 		}
@@ -762,6 +772,7 @@ func (v *c33OVar) apply(cm c33Cmd, other c33OVar) bool {
 			if cm.i == 0 {
 				v.m = map[int]string{}
 				v.kind = 0
+				v.isSet = false
 			} else {
 				return false
 			}
@@ -769,6 +780,7 @@ func (v *c33OVar) apply(cm c33Cmd, other c33OVar) bool {
 	case "ua":
 		v.m = map[int]string{}
 		v.kind = 0
+		v.isSet = false
 	}
 	return true
 }
@@ -997,6 +1009,7 @@ func c33GenItems(r *Rand, v c33OVar) []string {
 // c33GenProg generates a command list, tracking bash's semantics with the oracle so that the
 // documented exclusions can be applied exactly (see props/C33.notes.md):
 //   * `x[i]+=v` only while x is unset                     (finding C33-elem-append)
+//   * `unset x` not while x only ever got values through `x[i]=v` (finding C33-unset-after-elem-assign)
 //   * no out-of-range negative subscript inside a literal  (finding C33-literal-bad-subscript)
 //   * `x+=v` on an array inside ( ) / $( ) is left out     (C27's finding: the write leaks)
 //   * out-of-range negative `x[i]=v` only at top level     (bash aborts the enclosing function /
@@ -1103,6 +1116,9 @@ func c33GenProg(r *Rand, thorough bool) ([]c33Cmd, []string) {
 				emit(c33Cmd{x: x, kind: "ue", i: i})
 				tagset["op:unset-elem"] = true
 			case k < 88:
+				if v.kind != 0 && !v.isSet {
+					continue // finding C33-unset-after-elem-assign: `unset x` is a no-op in interp here
+				}
 				emit(c33Cmd{x: x, kind: "ua"})
 				tagset["op:unset-all"] = true
 			case k < 94:
@@ -1181,6 +1197,9 @@ func c33GenProg(r *Rand, thorough bool) ([]c33Cmd, []string) {
 				}
 				if dumpsInBlk == 0 {
 					// a block must print something (`echo "$( )"` of nothing would print a bare newline)
+					if s.a.kind == 1 {
+						emit(c33Cmd{x: "a", kind: "ap"}) // a+=() turns the scalar into an array; scalars are not dumped
+					}
 					emit(c33Cmd{x: "a", kind: "d", items: []string{"N"}})
 				}
 				emit(c33Cmd{kind: ")"})
